@@ -133,9 +133,13 @@ def do_run(dirs, tier, props, seeds=(0, 3)):
                                  "classes": cls[:6]})
                 res[prop] = hits
             meta["detection"][tier] = res
-            caught = all(h["exit"] == 1 and h["violations"] > 0
-                         for h in res[meta["property"]])
+            def hit(prop):
+                return all(h["exit"] == 1 and h["violations"] > 0
+                           for h in res[prop])
+            by = [p_ for p_ in res if hit(p_)]
+            caught = bool(by)
             meta["detection"][tier + "_caught"] = caught
+            meta["detection"][tier + "_caught_by"] = by
             summary.append((os.path.basename(d), caught, res))
             print("%-40s %s %s" % (os.path.basename(d),
                                    "CAUGHT" if caught else "MISSED",
